@@ -13,6 +13,9 @@ def main():
     sys.path.insert(0, here)
     from vlib import env
     env.setup()
+    if os.environ.get('VERIF_COVER'):
+        from vlib import cover
+        cover.install(os.environ['VERIF_COVER'], env.REPO)
     cid = sys.argv[1]
     mod = importlib.import_module('checks.%s' % cid.lower())
     if sys.argv[2] == '--replay':
